@@ -42,7 +42,8 @@ def value_matrix(side):
     return vals
 
 
-def gen_side(rng, prefix, max_dims=3, max_size=4, min_dims=1, size_bias=True, uniform=False, long_prob=0.0):
+def gen_side(rng, prefix, max_dims=3, max_size=4, min_dims=1, size_bias=True, uniform=False, long_prob=0.0,
+             dup_prob=0.0):
     k = rng.randint(min_dims, max_dims)
     pool = [s for s in (1, 1, 2, 2, 2, 3, 3, 4, 5) if s <= max_size] if size_bias else list(range(1, max_size + 1))
     sizes = [rng.choice(pool) for _ in range(k)]
@@ -65,6 +66,17 @@ def gen_side(rng, prefix, max_dims=3, max_size=4, min_dims=1, size_bias=True, un
             for _ in range(sizes[d] - 1):
                 v.append(v[-1] + rng.randint(1, 6))
             values.append(v)
+    if dup_prob and rng.random() < dup_prob:
+        # reference values that are NOT pairwise distinct (uncalibrated all-equal values, a triangular sweep ...):
+        # sizes, orders and the N-D form depend on the indices only
+        big = [d for d in range(k) if sizes[d] >= 2]
+        if big:
+            d = rng.choice(big)
+            if rng.random() < 0.5:
+                values[d] = [values[d][0]] * sizes[d]
+            else:
+                j = rng.randrange(1, sizes[d])
+                values[d][j] = values[d][rng.randrange(0, j)]
     return {'sizes': sizes, 'rate': rate, 'labels': labels, 'units': units, 'values': values}
 
 
